@@ -27,7 +27,9 @@ IField(n, t, hd, d) == [name |-> n, type |-> t, hasDefault |-> hd, default |-> d
 \* input In1 { x: Int = 1, y: [Int!], r: Int! }      input In2 { n: In2, s: String = "1", e: E }
 InputObjs == [
   In1 |-> << IField("x", Nm("Int"), TRUE, [t |-> "int", v |-> "iONE"]), IField("y", Li(Nn(Nm("Int"))), FALSE, NoLit),
-             IField("r", Nn(Nm("Int")), FALSE, NoLit) >>,
+             IField("r", Nn(Nm("Int")), FALSE, NoLit),
+             \* non-null AND defaulted: may be omitted (the default applies), may not be null
+             IField("k", Nn(Nm("Int")), TRUE, [t |-> "int", v |-> "iONE"]) >>,
   In2 |-> << IField("n", Nm("In2"), FALSE, NoLit), IField("s", Nm("String"), TRUE, [t |-> "str", v |-> "sONE"]),
              IField("e", Nm("E"), FALSE, NoLit) >> ]
 IsInputObj(n) == n \in DOMAIN InputObjs
